@@ -118,6 +118,8 @@ def setup(ctx):
         for r in ROUTES[1:]:
             ctx.require('route.' + r, 1, 'every documented parser route must be taken by valid strings')
             ctx.require('malformed.route.' + r, 1, 'every documented parser route must be taken by malformed strings')
+        for r in DEFAULT_TABLE_ROUTES:
+            ctx.require('route.' + r, 1, 'strings must also be parsed without a table argument')
         ctx.require('empty.blank-string', 1, 'blank strings (white space only) must be parsed')
         ctx.require('long_formulas', 1, 'formulas of hundreds of groups must be parsed')
         ctx.require('deep_nesting', 1, 'parentheses nested more than 100 deep must be tried')
@@ -141,6 +143,8 @@ def finish(ctx):
 
 # ---------------------------------------------------------------- routes
 ROUTES = ('formula', 'parse_formula', 'grammar', 'grammar-new')
+# public-table cases only: the table argument left out (the default table is the public one)
+DEFAULT_TABLE_ROUTES = ('formula-default', 'parse_formula-default')
 
 
 def _parse(text, T, route='formula'):
@@ -151,6 +155,10 @@ def _parse(text, T, route='formula'):
     from periodictable import formulas
     if route == 'formula':
         return pt.formula(text, table=T)
+    if route == 'formula-default':
+        return pt.formula(text)
+    if route == 'parse_formula-default':
+        return formulas.parse_formula(text)
     if route == 'parse_formula':
         return formulas.parse_formula(text, table=T)
     if route == 'grammar':
@@ -478,6 +486,10 @@ def generate(ctx):
         if rng.random() < 0.25:
             # a less-travelled documented route: parse_formula, or a parser object from formula_grammar(table=T)
             case['route'] = rng.choice(ROUTES[1:])
+        elif tname == 'public' and rng.random() < 0.4:
+            # the everyday call: no table argument at all (whatever was parsed - or rejected - before, on whichever
+            # table, the default table is the public one)
+            case['route'] = rng.choice(DEFAULT_TABLE_ROUTES)
         if case.get('safe_text') is None and node.flags:
             continue
         yield 'string', case
@@ -493,6 +505,8 @@ def generate(ctx):
                 mc = {'text': ms, 'class': cls, 'from': bare, 'table': tname, 'shape': shape_of(ms)}
                 if rng.random() < 0.3:
                     mc['route'] = rng.choice(ROUTES[1:])
+                elif tname == 'public' and rng.random() < 0.3:
+                    mc['route'] = rng.choice(DEFAULT_TABLE_ROUTES)
                 yield 'malformed', mc
 
 
